@@ -16,33 +16,42 @@ Proof.
   - rewrite run_nest by lia. destruct (L <=? Z.of_nat n); reflexivity.
 Qed.
 
+Lemma cyc_pos : forall s, 1 <= cyc s.
+Proof.
+  intro s. unfold cyc. repeat match goal with |- context [if ?b then _ else _] => destruct b end; lia.
+Qed.
+
+Lemma frames_nonneg : forall k d, 0 <= d -> 0 <= frames k d.
+Proof.
+  intros k d Hd. unfold frames. destruct (k <=? 4).
+  - destruct (k =? 3); lia.
+  - destruct (Z.leb_spec d 0); [lia|]. pose proof (cyc_pos ((k - 5) / 3)). nia.
+Qed.
+
 Lemma stack_step_spec : forall L op, 0 <= L -> op_ok op -> stack_step L op = spec_step L op.
 Proof.
   intros L [k d] HL Hd. unfold op_ok in Hd. cbn [snd] in Hd. unfold stack_step, spec_step.
+  pose proof (frames_nonneg k d Hd) as Hf. set (f := frames k d) in *.
   rewrite !run_chain_restored. cbn [cur].
   destruct (k =? 0); [reflexivity|].
-  destruct (k =? 1).
-  { rewrite code_run_nest by exact HL. rewrite Z2Nat.id by exact Hd. reflexivity. }
-  destruct (k =? 2).
+  destruct (mode k =? 0).
+  { rewrite code_run_nest by exact HL. rewrite Z2Nat.id by exact Hf. reflexivity. }
+  destruct (mode k =? 1).
   { rewrite run_nest_caught. reflexivity. }
-  destruct (k =? 3).
-  { rewrite code_run_nest by exact HL.
-    replace (Z.of_nat (S (S (Z.to_nat d)))) with (d + 2) by (rewrite !Nat2Z.inj_succ, Z2Nat.id; lia).
-    reflexivity. }
-  pose proof (code_run_nest L (S (Z.to_nat d)) HL) as H.
-  replace (Z.of_nat (S (Z.to_nat d))) with (d + 1) in H by (rewrite Nat2Z.inj_succ, Z2Nat.id; lia).
+  pose proof (code_run_nest L (S (Z.to_nat f)) HL) as H.
+  replace (Z.of_nat (S (Z.to_nat f))) with (f + 1) in H by (rewrite Nat2Z.inj_succ, Z2Nat.id; lia).
   destruct (Z.eqb_spec L 0) as [->|Hn]; cbn [negb andb] in *.
   - rewrite run_nest_nolimit. reflexivity.
   - rewrite run_nest in * by lia.
-    replace (Z.of_nat (S (Z.to_nat d))) with (d + 1) by (rewrite Nat2Z.inj_succ, Z2Nat.id; lia).
-    destruct (L <=? d + 1); reflexivity.
+    replace (Z.of_nat (S (Z.to_nat f))) with (f + 1) by (rewrite Nat2Z.inj_succ, Z2Nat.id; lia).
+    destruct (L <=? f + 1); reflexivity.
 Qed.
 
 Lemma stack_step_limit : forall L op, 0 <= L -> op_ok op -> 0 <= fst (stack_step L op).
 Proof.
   intros L [k d] HL Hd. unfold op_ok in Hd. cbn [snd] in Hd. unfold stack_step.
-  destruct (k =? 0); [exact Hd|]. destruct (k =? 1); [exact HL|].
-  destruct (k =? 2); [exact HL|]. destruct (k =? 3); exact HL.
+  destruct (k =? 0); [exact Hd|]. destruct (mode k =? 0); [exact HL|].
+  destruct (mode k =? 1); exact HL.
 Qed.
 
 Lemma stack_hist_spec : forall ops L, 0 <= L -> Forall op_ok ops -> stack_hist L ops = spec_hist L ops.
